@@ -989,7 +989,9 @@ def correspondence(ctx):
                 if name.startswith("wide"):
                     loaded = dump(call(Triangle.from_wide_csv, wide_p, **kw))
                     req = {"op": "wide", "cells": wire, "field_cols": sorted(fields), "detail_cols": dcols,
-                           "loss_detail_cols": ldet_keys, "impl_loaded": loaded.get("ok")}
+                           "loss_detail_cols": ldet_keys, "impl_loaded": loaded.get("ok"),
+                           # the lists as handed to the reader (None = left out: the model infers it like the code)
+                           "fc": kw.get("field_cols"), "dc": kw.get("detail_cols")}
                     if first_wide:
                         req.update(impl_table=wtable, impl_nrows=len(wtable["rows"]))
                     reqs.append(req)
@@ -1283,7 +1285,7 @@ if __name__ == "__main__":
     import translate_c14
     common.run_check(
         "C14", module="Bermuda.Properties.C14", driver_targets=["drv_c14"],
-        correspondence=correspondence, level="translation_validation", extra_translate=translate_c14.regenerate,
+        correspondence=correspondence, level="proof", extra_translate=translate_c14.regenerate,
         rule="CSV: random triangles, 1-4 slices each differing from the first in exactly one of the eight metadata "
              "attributes (string or numeric detail / loss-detail values, added or removed keys); cumulative all-scalar "
              "(int/float, differing field sets, occasional size-1 array), cumulative all-sample (2-4 samples, int64/float64, ragged field "
